@@ -189,7 +189,51 @@ def btree_commit_sorts_stably(repo=None):
     return rep
 
 
+
+def migrate_copies_after_source_open(repo=None):
+    """C20: columns that keep their settings are copied file by file (copy_column). The source's pending write-ahead logs are
+    replayed into its files by Db::open; a copy made before that misses every record that was only in the log. Text
+    dominance: in migration::migrate the statement `.. = Db::open(&source_options)?;` stands at the top level of the
+    function body, in front of every copy_column call."""
+    repo = repo or scratch.REPO
+    rep = {"unit": "syntactic:migrate_copies_after_source_open", "status": "undecided", "reason": "", "failed": [],
+           "named": ["U25.migrate.columns_are_copied_only_after_the_source_was_opened_and_replayed"], "obligations": 1, "verified": 0, "errors": 0,
+           "cmd": "text dominance check on migration::migrate in src/migration.rs", "wall_s": 0.0, "functions": ["migration::migrate"],
+           "trusted_scan": {"syntactic-check (not a proof)": 1}, "smt_s": 0}
+    try:
+        src = open(os.path.join(repo, "src/migration.rs")).read()
+        start, fnpos, body_open, end = extract.find_fn(src, "migrate")
+    except (extract.LostAnchor, OSError) as e:
+        rep["reason"] = "migrate not found: %s" % e
+        return rep
+    body = re.sub(r"//[^\n]*", "", src[body_open:end])
+    copies = [m.start() for m in re.finditer(r"\bcopy_column\s*\(", body)]
+    if not copies:
+        rep["reason"] = "no copy_column call in migrate (code restructured): undecided by this text check"
+        return rep
+    opens = [m for m in re.finditer(r"=\s*Db::open\(\s*&source_options\s*\)\s*\?\s*;", body)]
+    why = []
+    if not opens:
+        rep["reason"] = "no `Db::open(&source_options)?` statement in migrate (code restructured): undecided by this text check"
+        return rep
+    first = opens[0].start()
+    depth = body[:first].count("{") - body[:first].count("}")
+    if depth != 1:
+        why.append("the source is not opened unconditionally at the top level of migrate")
+    if any(c < first for c in copies):
+        why.append("a column is copied (copy_column) before the source database was opened, i.e. before its pending logs were replayed into the files")
+    if not why:
+        rep["status"] = "verified"
+        rep["verified"] = 1
+    else:
+        rep["status"] = "failed"
+        rep["errors"] = 1
+        rep["failed"].append({"obligation": rep["named"][0], "clause": "; ".join(why), "function": "migration::migrate",
+                              "diag": "syntactic dominance check failed: " + "; ".join(why), "text": src[start:end][:6000]})
+    return rep
+
 CHECKS = {"commit_raw_checks_before_publish": commit_raw_checks_before_publish,
           "claim_tree_values_checks_before_claim": claim_tree_values_checks_before_claim,
           "commit_changes_claims_nothing_before_validation": commit_changes_claims_nothing_before_validation,
-          "btree_commit_sorts_stably": btree_commit_sorts_stably}
+          "btree_commit_sorts_stably": btree_commit_sorts_stably,
+          "migrate_copies_after_source_open": migrate_copies_after_source_open}
